@@ -683,6 +683,8 @@ def declare(d, ocp=None, stage=None, solver=True, method=True, with_cons=True, w
         apply_init(st, s, d, ent)
     if solver:
         ocp.solver("ipopt", {"ipopt.print_level": 0, "print_time": False, "ipopt.sb": "yes"})
-    if method:
+    if method is True:
         st.method(make_method(d))
+    elif method:
+        st.method(method)        # a method object supplied by the caller (possibly given to other stages too)
     return r
